@@ -513,6 +513,162 @@ func (m *Model) stopFrame(in ssa.Instruction) (fn *ssa.Function, at ssa.Instruct
 	return fn, at, false
 }
 
+// OpFrame is one calling context of an instruction: the chain of plain calls (outermost first) that
+// leads from Root to the function containing it. At is the instruction of Root that stands for it
+// (the outermost call, or the instruction itself). Stop: Root is a stop unit.
+type OpFrame struct {
+	Root  *ssa.Function
+	At    ssa.Instruction
+	Chain []ssa.CallInstruction
+	Stop  bool
+	ViaGo bool // the chain starts in a goroutine that the stop unit starts and waits for
+}
+
+// opFrames enumerates the calling contexts of an instruction up to the nearest stop unit,
+// closure, goroutine entry or function without callers (depth-bounded).
+func (m *Model) opFrames(in ssa.Instruction) []OpFrame {
+	var out []OpFrame
+	var walk func(fn *ssa.Function, at ssa.Instruction, chain []ssa.CallInstruction, depth int)
+	walk = func(fn *ssa.Function, at ssa.Instruction, chain []ssa.CallInstruction, depth int) {
+		if containsFn(m.StopUnits, fn) {
+			out = append(out, OpFrame{Root: fn, At: at, Chain: chain, Stop: true})
+			return
+		}
+		var sites []CallSite
+		for _, cs := range m.callers[fn] {
+			if !cs.IsGo && !cs.IsDef {
+				sites = append(sites, cs)
+			}
+		}
+		// a goroutine that a stop unit starts and waits for belongs to that stop call
+		if depth < 4 {
+			for _, sp := range m.Spawns() {
+				for _, t := range sp.Targets {
+					if t == fn && containsFn(m.StopUnits, topFunc(sp.Fn)) && m.awaitedBySpawner(sp) {
+						out = append(out, OpFrame{Root: topFunc(sp.Fn), At: sp.At, Chain: chain, Stop: true, ViaGo: true})
+						return
+					}
+				}
+			}
+		}
+		if fn.Parent() != nil || len(sites) == 0 || depth >= 4 {
+			out = append(out, OpFrame{Root: fn, At: at, Chain: chain})
+			return
+		}
+		for _, cs := range sites {
+			walk(cs.Caller, cs.Instr, append([]ssa.CallInstruction{cs.Instr}, chain...), depth+1)
+		}
+	}
+	walk(in.Parent(), in, nil, 0)
+	return out
+}
+
+// awaitedBySpawner: the spawned function closes (or sends on) a channel when it ends, and the
+// spawning function waits for that channel in a blocking select that the spawn dominates and
+// from whose other cases (timer, context) no `return nil` is reachable: when the spawner returns
+// successfully, the goroutine has finished.
+func (m *Model) awaitedBySpawner(sp Spawn) bool {
+	if v, ok := m.awaitedMemo[sp.At]; ok {
+		return v
+	}
+	if m.awaitedMemo == nil {
+		m.awaitedMemo = map[ssa.Instruction]bool{}
+	}
+	m.awaitedMemo[sp.At] = false
+	signals := map[string]bool{}
+	for _, t := range sp.Targets {
+		eachInstr(t, func(in ssa.Instruction) {
+			switch x := in.(type) {
+			case *ssa.Call:
+				if b, isB := x.Call.Value.(*ssa.Builtin); isB && b.Name() == "close" && len(x.Call.Args) == 1 {
+					signals[m.Sym.Of(m.traceValue(x.Call.Args[0])).String()] = true
+				}
+			case *ssa.Defer:
+				if b, isB := x.Call.Value.(*ssa.Builtin); isB && b.Name() == "close" && len(x.Call.Args) == 1 {
+					signals[m.Sym.Of(m.traceValue(x.Call.Args[0])).String()] = true
+				}
+			case *ssa.Send:
+				signals[m.Sym.Of(m.traceValue(x.Chan)).String()] = true
+			}
+		})
+	}
+	f := sp.Fn
+	ok := false
+	eachInstr(f, func(in ssa.Instruction) {
+		sel, isSel := in.(*ssa.Select)
+		if !isSel || !sel.Blocking || !dominatesInstr(sp.At, in) {
+			return
+		}
+		waitCase := -1
+		for k, st := range sel.States {
+			if st.Dir == types.RecvOnly && signals[m.Sym.Of(m.traceValue(st.Chan)).String()] {
+				waitCase = k
+			}
+		}
+		if waitCase < 0 {
+			return
+		}
+		// from the other cases no successful return
+		good := true
+		m.edgeHook = func(l Lit, flag int) (int, bool) {
+			if s2, k, isCase := selectCaseOf(l); isCase && s2 == sel && k == waitCase {
+				return flag, true // the awaited case: fine
+			}
+			return flag, false
+		}
+		m.exploreFrom(in, 0, func(x ssa.Instruction, flag int) (int, bool) { return flag, false }, func(last ssa.Instruction, flag int) {
+			if ret, isRet := last.(*ssa.Return); isRet && ret.Parent() == f && len(ret.Results) > 0 {
+				v := returnValue(ret, len(ret.Results)-1)
+				if k, isC := v.(*ssa.Const); isC && k.Value == nil && isErrorType(v.Type()) {
+					good = false
+				}
+			}
+		})
+		m.edgeHook = nil
+		if good {
+			ok = true
+		}
+	})
+	m.awaitedMemo[sp.At] = ok
+	return ok
+}
+
+// frameGuards: the literals that hold at the instruction in this calling context: the guards at
+// every call of the chain and at the instruction itself.
+func (m *Model) frameGuards(fr OpFrame, in ssa.Instruction) []Lit {
+	var gs []Lit
+	if fr.ViaGo && fr.At != nil {
+		gs = append(gs, m.GuardsAt(fr.At)...)
+	}
+	for _, ci := range fr.Chain {
+		gs = append(gs, m.GuardsAt(ci)...)
+	}
+	gs = append(gs, m.GuardsAt(in)...)
+	return gs
+}
+
+// OriginsInFrame is Origins with the parameters of the functions along the frame's chain bound
+// to the arguments of that chain (one calling context instead of the union over all callers).
+func (m *Model) OriginsInFrame(v ssa.Value, fr OpFrame) originSet {
+	pc := &provCtx{m: m, busy: map[string]bool{}}
+	for _, ci := range fr.Chain {
+		callee := ci.Common().StaticCallee()
+		if callee == nil {
+			continue
+		}
+		b := map[*ssa.Parameter]ssa.Value{}
+		for i, p := range callee.Params {
+			if i < len(ci.Common().Args) {
+				b[p] = ci.Common().Args[i]
+			}
+		}
+		pc.frames = append(pc.frames, b)
+	}
+	out := originSet{}
+	pc.walk(v, "", out, 0)
+	return out
+}
+
 // Spawn is a place where the library starts a goroutine: a go statement, or a call of a
 // "spawn helper" (a function that does wg.Add(1); go func(){ defer wg.Done(); fn() }() for a
 // function parameter fn), in which case At is the call of the helper.
